@@ -18,7 +18,7 @@ func C17(c *Ctx) {
 	r := c.R
 	const pkg = "pkg/pool"
 	r.Explain = "Structural premises of 'all peers agree on who owns a subscriber': the score of a (subscriber, node) pair is a pure function of the pair (the functions below GetOwner/getHealthyOwner read nothing but their parameters: no package state, receiver, map iteration, clock or randomness), which is what makes highest-random-weight hashing order-independent and minimally disruptive; the peer list is kept in canonical order and free of duplicates by every function that changes it; the healthy-owner walk returns the first eligible element of the ranking and falls back to the local node only after it; owner lookup and allocation use the same score function; the local-versus-forward decision of Allocate/Release is taken only from the healthy-owner result.  Ties on equal 64-bit scores, distribution quality and end-to-end HTTP are not decided."
-	r.Rule("C17.U1.pure", "rendezvousHash, rendezvousRanked, hashCombine and hashString (and what they call in the module) read only their parameters: no globals, no receiver state, no map iteration, no time/rand/os", 4)
+	r.Rule("C17.U1.pure", "rendezvousHash, rendezvousRanked, hashCombine and hashString (and what they call in the module) read only their parameters: no globals, no receiver state, no map iteration, no time/rand/os", 3)
 	r.Rule("C17.U2.canonicalPeers", "every store to the peer list keeps it sorted and duplicate-free: growth is followed by sort.Strings and guarded by a membership scan, removal is the order-preserving splice", 3)
 	r.Rule("C17.U3.healthyWalk", "getHealthyOwner ranks with rendezvousRanked over the peer list and returns the first element that is the local node or not known unhealthy; the local node is the fallback only after the whole ranking", 3)
 	r.Rule("C17.U4.sameScore", "GetOwner and the allocation path score (subscriber, node) with the same function hashCombine(hashString(key), node)", 2)
@@ -26,8 +26,12 @@ func C17(c *Ctx) {
 
 	// ---- U1
 	for _, name := range []string{"rendezvousHash", "rendezvousRanked", "hashCombine", "hashString"} {
-		f := c.fn(pkg, "", name)
-		if f == nil {
+		var f *ssa.Function
+		if name == "hashString" { // optional: the key hash may be written out in its callers, where it is covered by their purity
+			if f = c.P.SSAFunc(pkg, "", name); f == nil || len(f.Blocks) == 0 {
+				continue
+			}
+		} else if f = c.fn(pkg, "", name); f == nil {
 			continue
 		}
 		bad := impurities(c, f, map[*ssa.Function]bool{}, 0)
@@ -80,24 +84,23 @@ func C17(c *Ctx) {
 			if x, i := elemOf(res); x != nil && x == ranked {
 				_ = i
 				nInLoop++
-				// guarded by node == p.nodeID, or by !ok / h.healthy
-				g := false
-				for _, ft := range flow.FactsAt(b) {
+				// on every path to this return: node == p.nodeID, or !ok, or h.healthy (φ-aware, so `!ok || h.healthy`
+				// and a boolean helper inlined at the call site are seen through)
+				g, _ := flow.EveryPathHas(b, func(ft flow.Fact) bool {
 					if bo, ok := ft.Cond.(*ssa.BinOp); ok && bo.Op == token.EQL && ft.Pol && (strings.HasSuffix(flow.FieldOwner(bo.Y), "PeerPool.nodeID") || strings.HasSuffix(flow.FieldOwner(bo.X), "PeerPool.nodeID")) {
-						g = true
+						return true
 					}
-				}
-				// the health branch is a disjunction (!ok || h.healthy): the return block has two predecessors, each an edge fact
-				for _, p := range b.Preds {
-					if ef, ok := flow.EdgeFact(p, b); ok {
-						if name, _, okn := guardName(ef.Cond); okn && (strings.HasPrefix(name, "found(PeerPool.peerHealthMap)") && !ef.Pol) {
-							g = true
-						}
-						if fo := flow.FieldOwner(ef.Cond); strings.HasSuffix(fo, "peerHealth.healthy") && ef.Pol {
-							g = true
-						}
+					if bo, ok := ft.Cond.(*ssa.BinOp); ok && bo.Op == token.NEQ && !ft.Pol && (strings.HasSuffix(flow.FieldOwner(bo.Y), "PeerPool.nodeID") || strings.HasSuffix(flow.FieldOwner(bo.X), "PeerPool.nodeID")) {
+						return true
 					}
-				}
+					if name, _, okn := guardName(ft.Cond); okn && strings.HasPrefix(name, "found(PeerPool.peerHealthMap)") && !ft.Pol {
+						return true
+					}
+					if fo := flow.FieldOwner(ft.Cond); strings.HasSuffix(fo, "peerHealth.healthy") && ft.Pol {
+						return true
+					}
+					return false
+				})
 				if !g {
 					okRet, why = false, "a ranked node is returned without being the local node or passing the health test"
 				}
@@ -125,22 +128,33 @@ func C17(c *Ctx) {
 		r.Check("C17.U3.healthyWalk", load.ShortFunc(f), "ranking walked from the top", c.P.Pos(f.Pos()), inOrder, "the ranking is not walked in order from its first element")
 	}
 
-	// ---- U4
+	// ---- U4: both scorers call hashCombine(<key hash>, <node>) with the key hash computed the same way from the key
+	// parameter alone (same canonical expression in both functions — whether through hashString or written out)
+	shapes := map[string]string{}
 	for _, name := range []string{"rendezvousHash", "rendezvousRanked"} {
 		f := c.fn(pkg, "", name)
 		if f == nil {
 			continue
 		}
-		ok := false
+		ok, why := false, "no call of hashCombine found"
 		for _, call := range flow.Calls(f) {
 			if flow.CalleeIs(call, pkg, "", "hashCombine") {
-				a := call.Common().Args
-				if kc, isC := a[0].(*ssa.Call); isC && flow.CalleeIs(kc, pkg, "", "hashString") && isParam(kc.Call.Args[0]) {
+				sh := flow.Shape(call.Common().Args[0])
+				switch {
+				case strings.Contains(sh, "?") || strings.Contains(sh, "…") || strings.Contains(sh, "dyn"):
+					ok, why = false, "the key hash passed to hashCombine depends on something other than the key parameter and constants: "+sh
+				case !strings.Contains(sh, "p0") || strings.Contains(sh, "p1") || strings.Contains(sh, "p2"):
+					ok, why = false, "the key hash passed to hashCombine is not a function of the key parameter alone: "+sh
+				default:
 					ok = true
+					shapes[name] = sh
 				}
 			}
 		}
-		r.Check("C17.U4.sameScore", load.ShortFunc(f), "score = hashCombine(hashString(key), node)", c.P.Pos(f.Pos()), ok, "this function scores nodes with something other than hashCombine(hashString(key), node): owner lookup and allocation would disagree")
+		r.Check("C17.U4.sameScore", load.ShortFunc(f), "score = hashCombine(hashString(key), node)", c.P.Pos(f.Pos()), ok, "this function scores nodes with something other than hashCombine(hash of the key, node): owner lookup and allocation would disagree ("+why+")")
+	}
+	if a, b := shapes["rendezvousHash"], shapes["rendezvousRanked"]; a != "" && b != "" && a != b {
+		r.Check("C17.U4.sameScore", "pool", "the two scorers hash the key the same way", "-", false, "rendezvousHash computes "+a+" but rendezvousRanked computes "+b)
 	}
 
 	// ---- U5
@@ -312,20 +326,30 @@ func canonicalStore(f *ssa.Function, st *ssa.Store) (bool, string) {
 		if !sortedAfter {
 			return false, "a peer is appended without re-sorting the list: nodes that learnt their peers in different orders hold differently ordered lists (ties resolve differently) and later binary searches / splices misbehave"
 		}
-		dedup := false
-		for _, blk := range f.Blocks {
-			if _, isRet := blk.Instrs[len(blk.Instrs)-1].(*ssa.Return); !isRet || blk == f.Recover {
-				continue
+		// the list is scanned for the new member (some test peerNodes[i] == <parameter> exists), and the append is not
+		// reachable on a path where that test succeeded (path-sensitive, so `if indexOf(list, id) >= 0 { return }` counts)
+		isHit := func(ft flow.Fact) bool {
+			bo, ok := ft.Cond.(*ssa.BinOp)
+			if !ok || !((bo.Op == token.EQL && ft.Pol) || (bo.Op == token.NEQ && !ft.Pol)) {
+				return false
 			}
-			for _, ft := range flow.FactsAt(blk) {
-				if bo, ok := ft.Cond.(*ssa.BinOp); ok && bo.Op == token.EQL && ft.Pol {
-					x, _ := elemOf(bo.X)
-					if x != nil && strings.HasSuffix(flow.FieldOwner(x), "PeerPool.peerNodes") && isParam(bo.Y) && !flow.ReachableWithout(blk.Instrs[0], st, nil) {
-						dedup = true
-					}
+			x, _ := elemOf(bo.X)
+			y := bo.Y
+			if x == nil {
+				x, _ = elemOf(bo.Y)
+				y = bo.X
+			}
+			return x != nil && strings.HasSuffix(flow.FieldOwner(x), "PeerPool.peerNodes") && isParam(y)
+		}
+		scan := false
+		flow.Instrs(f, func(in ssa.Instruction) {
+			if iff, ok := in.(*ssa.If); ok {
+				if isHit(flow.Fact{Cond: iff.Cond, Pol: true}) || isHit(flow.Fact{Cond: iff.Cond, Pol: false}) {
+					scan = true
 				}
 			}
-		}
+		})
+		dedup := scan && !flow.SomePathHas(st.Block(), isHit)
 		if !dedup {
 			return false, "a peer is appended without a membership scan over the whole list: announcing a member again inserts it twice, and removing it later leaves one copy that keeps owning subscribers"
 		}
